@@ -7,6 +7,7 @@ import (
 	"path/filepath"
 	"strconv"
 	"strings"
+	"sync/atomic"
 	"time"
 
 	"github.com/fsnotify/fsnotify"
@@ -116,6 +117,13 @@ func runC01(c *core.Ctx) {
 		c01Repoint(c, rng, dir)
 		done()
 	}
+	if c.Batch%4 == 1 {
+		if rng, ok := c.CaseRng(300000, "name-less flood filling a whole read buffer"); ok {
+			dir, done := caseDir(c, 300000)
+			namelessFlood(c, rng, dir)
+			done()
+		}
+	}
 	hs.mu.Lock()
 	multi := int64(0)
 	for k, v := range hs.readHist {
@@ -174,12 +182,33 @@ func c01Overflow(c *core.Ctx) {
 	for k := 0; k < total; k++ {
 		os.WriteFile(filepath.Join(d, fmt.Sprintf("f%d", k)), nil, 0o644) // create (+ no modify: empty)
 	}
+	// Drain a part of the queue, so that the kernel accepts notifications again while the
+	// overflow marker is still unread, and make changes in that window: they are queued BEHIND
+	// the marker, were not lost by the kernel, and therefore must be delivered.
+	base0 := atomic.LoadInt64(&s.Received)
+	s.Pause(false)
+	for i := 0; i < 200000 && atomic.LoadInt64(&s.Received)-base0 < 5000; i++ {
+		time.Sleep(50 * time.Microsecond)
+	}
+	s.Pause(true)
+	var probes []string
+	for k := 0; k < 5; k++ {
+		p := filepath.Join(d, fmt.Sprintf("probe-behind-marker-%d", k))
+		os.WriteFile(p, nil, 0o644)
+		probes = append(probes, p)
+	}
 	ok2, dump := s.Barrier()
 	if !ok2 {
 		c.Violate("overflow-not-survived", "no sentinel was delivered after a queue overflow: "+hangClass(dump), dumpExcerpt(dump))
 		return
 	}
 	_, got, errs := s.Take()
+	seenProbe := map[string]bool{}
+	for _, e := range got {
+		if strings.Contains(e.Name, "probe-behind-marker-") {
+			seenProbe[e.Name] = true
+		}
+	}
 	nOvf := 0
 	for _, e := range errs {
 		if errors.Is(e, fsnotify.ErrEventOverflow) {
@@ -189,7 +218,7 @@ func c01Overflow(c *core.Ctx) {
 	next := 0
 	gap := ""
 	for _, e := range got {
-		if e.Op&fsnotify.Create == 0 {
+		if e.Op&fsnotify.Create == 0 || strings.Contains(e.Name, "probe-behind-marker-") {
 			continue
 		}
 		want := filepath.Join(d, fmt.Sprintf("f%d", next))
@@ -211,6 +240,15 @@ func c01Overflow(c *core.Ctx) {
 	}
 	if next >= total {
 		c.Inconclusive("overflow was not reached")
+	}
+	if nOvf == 1 { // a second marker would mean the kernel really dropped something again
+		for _, p := range probes {
+			c.Count("overflow_probes_behind_marker", 1)
+			if !seenProbe[p] {
+				c.Violate("lost-event", fmt.Sprintf("a file created after 5000 of the queued events had been consumed (so the kernel queued its notification, behind the still unread overflow marker) was never reported: %s; one ErrEventOverflow in total", filepath.Base(p)), nil)
+				break
+			}
+		}
 	}
 	// afterwards events flow again
 	os.WriteFile(filepath.Join(d, "after"), nil, 0o644)
@@ -293,5 +331,43 @@ func c01Repoint(c *core.Ctx, rng interface{ Intn(int) int }, dir string) {
 		if len(d.Diff.Missing) > 0 {
 			c.Violate("lost-event", fmt.Sprintf("after re-adding a replaced path (variant %d) changes to the new file were not reported: missing %v; history %v", how, d.Diff.Missing, d.Log), d)
 		}
+	}
+}
+
+// namelessFlood: two files watched directly; with the consumer paused, > 4096 alternating
+// attribute changes queue name-less 16-byte notifications (alternating watches, so the kernel
+// cannot merge them): a read returns exactly 4096 of them, the last one ending at byte 65536.
+func namelessFlood(c *core.Ctx, rng interface{ Intn(int) int }, dir string) {
+	s, err := twin.NewSession(dir, []int{-1, 0, 1, 2}[rng.Intn(4)])
+	if err != nil {
+		c.Broken(err.Error())
+		return
+	}
+	defer s.Close()
+	os.Chdir(s.Base)
+	rep := twin.Report{KeepGoing: true}
+	os.WriteFile("f1", nil, 0o644)
+	os.WriteFile("f2", nil, 0o644)
+	s.AddStrict(&rep, "f1")
+	s.AddStrict(&rep, "f2")
+	s.Sync(&rep, false)
+	s.Pause(true)
+	n := 4096 + 200 + rng.Intn(300)
+	for k := 0; k < n; k++ {
+		s.Chmod([]string{"f1", "f2"}[k%2], uint32(0o600+k%8))
+	}
+	s.Sync(&rep, false)
+	c.Eval(1)
+	c.Count("nameless_flood_cases", 1)
+	c.Count("events_received", int64(rep.Received))
+	c.Count("windows_compared", int64(rep.Windows))
+	c.Distinct("nameless-flood", n)
+	for _, d := range rep.Diffs {
+		if len(d.Diff.Missing) > 0 {
+			c.Violate("lost-event", fmt.Sprintf("%d name-less notifications queued while the consumer was paused: %d expected events never arrived (first %v)", n, len(d.Diff.Missing), d.Diff.Missing[0]), nil)
+		}
+	}
+	if rep.Hang != "" {
+		c.Inconclusive("name-less flood: barrier watchdog, " + hangClass(rep.Hang))
 	}
 }
